@@ -8,6 +8,7 @@ CONSTANTS
   HasCache = FALSE
   CachePutBeforeDbWrite = FALSE
   BulkVersionsUsesEpoch = FALSE
+  FillPolicy = "if_same_generation"
 INIT TInit
 NEXT TNext
 CONSTRAINT Track
